@@ -1,7 +1,7 @@
 """C04 — structural predicates have their documented meaning for every pair of nodes.
 
 Enumerates all trees <= bound of several catalogue grammars x ALL ordered node pairs x
-every structural predicate (nth N in 1..4, level over all operators x nonterminals) and
+every structural predicate (nth N in 0..4, level over all operators x nonterminals) and
 compares three observation points with mc.ref.refpred:
   direct : StructuralPredicate.evaluate(tree, path_1, path_2)
   formula: evaluate(StructuralPredicateFormula(pred, subtree_1, subtree_2), tree, G)
@@ -20,7 +20,7 @@ LEVEL = "model_checking"
 RULE = (
     "all closed trees of catalogue grammars up to a depth/node bound x all ordered node pairs "
     "(identical, nested, ordered both ways) x {before, after, inside, direct_child, same_position, "
-    "different_position, consecutive, nth 1..4, level x 5 operators x every nonterminal}; a schema is "
+    "different_position, consecutive, nth 0..4 (there is no 0-th occurrence), level x 5 operators x every nonterminal}; a schema is "
     "(grammar, predicate instance, entry point); it is non-trivial if both True and False were observed"
 )
 ASSUMPTIONS = [
@@ -85,7 +85,7 @@ def _lcp(a, b):
 
 def _instances(cg):
     inst = [(p, ()) for p in BINARY]
-    inst += [("nth", (n,)) for n in (1, 2, 3, 4)]
+    inst += [("nth", (n,)) for n in (0, 1, 2, 3, 4)]
     inst += [("level", (op, nt)) for op in LEVEL_OPS for nt in cg if nt != "<start>"]
     return inst
 
